@@ -25,6 +25,10 @@ RULES = {
                             {"s": 0, "op": "combine", "others": [1]}, {"s": 2, "op": "batch_eval", "es": ["x", "y"], "n": 20, "extra": []}],
     "combine-contradictory": [A("ULT(x, 3)"), {"s": 0, "op": "branch"}, A("UGE(x, 8)", 1), {"s": 0, "op": "combine", "others": [1]},
                               {"s": 2, "op": "satisfiable", "extra": []}],
+    "combine-three-others-overlap": [{"s": 0, "op": "branch"}, {"s": 0, "op": "branch"}, A("y == 6", 0), A("UGE(x, 8)", 1), A("ULT(x, 3)", 2),
+                                     {"s": 0, "op": "eval", "e": "y", "n": 2, "extra": []}, {"s": 1, "op": "eval", "e": "x", "n": 2, "extra": []},
+                                     {"s": 2, "op": "eval", "e": "x", "n": 2, "extra": []}, {"s": 0, "op": "combine", "others": [1, 2]},
+                                     {"s": 3, "op": "satisfiable", "extra": []}, {"s": 3, "op": "eval", "e": "x", "n": 20, "extra": []}],
     "split-three-groups": [A("ULT(x, 3)"), A("z == y"), A("b"), A("SLT(y, 0)"), {"s": 0, "op": "split"},
                            {"s": 1, "op": "satisfiable", "extra": []}, {"s": 2, "op": "satisfiable", "extra": []}],
     "split-after-simplify": [A("ULT(x, 3)"), A("Or(x == 1, x == 2)"), A("y + z == 7"), {"s": 0, "op": "simplify"}, {"s": 0, "op": "split"}],
@@ -46,6 +50,10 @@ def jobs_for(ctx, mult=1):
         lens = ctx.pick([10, 20, 30], [30, 60, 100])
         for i in range(n):
             jobs.append({"cls": cls, "cfg": {"track": False, "reuse": i % 3 == 0}, "len": lens[i % len(lens)], "struct": True})
+        # combine of 3-4 solvers with their own constraints and query history (cached models), often with the first
+        # variable-disjoint from the rest and two of the others overlapping
+        for i in range(ctx.pick(24, 200) * mult):
+            jobs.append({"cls": cls, "cfg": {"track": False, "reuse": i % 4 == 0}, "len": 0, "combine": True})
     return jobs
 
 
@@ -57,9 +65,10 @@ def run(ctx):
         "claripy.And / claripy.Or build what they say (C01)",
     ]
     ctx.cov["rule"] = ("classes Solver, SolverCacheless, SolverHybrid, SolverComposite; rule-directed (merge of two, merge with ancestor, merge with an "
-                       "unsatisfiable side, combine independent / contradictory, split into groups, split after simplify, split with false) x reuse on/off; "
+                       "unsatisfiable side, combine independent / contradictory / three solvers with overlapping others, split into groups, split after simplify, split with false) x reuse on/off; "
                        "random histories of length <= 30 quick / 100 thorough with split/combine/merge among up to 6 live solvers and arbitrary merge "
-                       "conditions from the constraint alphabet; non-trivial = >= 3 calls")
+                       "conditions from the constraint alphabet; combine-directed histories (3-4 solvers branched from an empty one, each with own constraints "
+                       "and queries, then combine and queries on the result); non-trivial = >= 3 calls")
     tie_ok = True
     try:
         write_if_changed(os.path.join(LEAN, "Claripy", "Gen", "SolverMro.lean"), ts.render(ts.translate()))
